@@ -71,6 +71,23 @@ public:
 		}
 		else throw std::logic_error("harness: CSV cannot hold an array of numbers at the root");
 	}
+	void SaveDynToFile(DynNode& root, const BitSerializer::SerializationOptions& o, const std::string& path) override
+	{
+		Root(root, [&](auto& v) { BitSerializer::SaveObjectToFile<TArchive>(v, path, o, true); });
+	}
+	void LoadDynFromFile(DynNode& root, const BitSerializer::SerializationOptions& o, const std::string& path) override
+	{
+		Root(root, [&](auto& v) { BitSerializer::LoadObjectFromFile<TArchive>(v, path, o); });
+	}
+	void LoadShapes(Shapes& sh, const BitSerializer::SerializationOptions& o, IoIn in) override
+	{
+		if constexpr (TArchive::archive_type != BitSerializer::ArchiveType::Csv)
+		{
+			if (in.mem) BitSerializer::LoadObject<TArchive>(sh, *in.mem, o);
+			else BitSerializer::LoadObject<TArchive>(sh, *in.stream, o);
+		}
+		else throw std::logic_error("harness: CSV has no arrays inside a row");
+	}
 	void SaveZoo(Zoo& z, const BitSerializer::SerializationOptions& o, IoOut out) override
 	{
 		if constexpr (TreeZoo)
